@@ -257,6 +257,9 @@ func (e *Exec) branch(c *Term, ins ssa.Instruction) bool {
 }
 
 // concretize forks over the feasible values of t (as unsigned bit pattern) and returns this path's value.
+// Order: the small values 0..cap-1 in ascending order (ordinary two-way forks on t == v), then up to 16 further
+// values proposed by solver models; if still more values are feasible the remaining class is represented by ONE
+// sampled value (a stated coverage cut, counted in the evidence as sampled_value_classes).
 func (e *Exec) concretize(t *Term, what string) uint64 {
 	if t.IsConst() {
 		return t.val
@@ -264,7 +267,16 @@ func (e *Exec) concretize(t *Term, what string) uint64 {
 	if e.initMode {
 		panic(pathEnd{"unsupported", "symbolic value during package initialisation"})
 	}
-	tries := 0
+	small := e.h.ConcretizeCap
+	for v := 0; v < small; v++ {
+		if uint64(v) > mask(t.sort.W) {
+			break
+		}
+		if e.branch(e.ctx.Eq(t, e.ctx.Const(t.sort.W, uint64(v))), nil) {
+			return uint64(v)
+		}
+	}
+	extra := 0
 	for {
 		if e.pos < len(e.prefix) {
 			d := e.prefix[e.pos]
@@ -272,18 +284,15 @@ func (e *Exec) concretize(t *Term, what string) uint64 {
 			e.decs = append(e.decs, d)
 			cv := e.ctx.Const(t.sort.W, uint64(d.Val))
 			switch d.Kind {
-			case 'v':
+			case 'v', 's':
 				e.addPC(e.ctx.Eq(t, cv))
 				return uint64(d.Val) & mask(t.sort.W)
 			case 'n':
+				extra++
 				e.addPC(e.ctx.BNot(e.ctx.Eq(t, cv)))
 				continue
 			}
 			panic(pathEnd{"internal", "replay divergence: expected concretisation decision"})
-		}
-		tries++
-		if tries > e.h.ConcretizeCap {
-			panic(pathEnd{"bound", fmt.Sprintf("more than %d feasible values for %s", e.h.ConcretizeCap, what)})
 		}
 		// pick a feasible value
 		var v uint64
@@ -308,6 +317,18 @@ func (e *Exec) concretize(t *Term, what string) uint64 {
 		eq := e.ctx.Eq(t, cv)
 		neq := e.ctx.BNot(eq)
 		e.w.stats.Forks++
+		if extra >= 16 {
+			// representative of the remaining value class
+			if e.feasible(neq) {
+				e.w.stats.SampledClasses++
+				e.decs = append(e.decs, Dec{'s', int64(v)})
+			} else {
+				e.decs = append(e.decs, Dec{'v', int64(v)})
+			}
+			e.pos++
+			e.addPC(eq)
+			return v
+		}
 		if e.feasible(neq) {
 			alt := append(append([]Dec{}, e.decs...), Dec{'n', int64(v)})
 			e.w.push(alt)
